@@ -24,6 +24,9 @@ CLAUSES = {
     'EntityOK/text': "EntityOK: replacement does not decode to the reference's text (text)",
     'EntityOK/markup': 'EntityOK: literal markup character as replacement in text',
     'EntityOK/rev': 'EntityOK: reverse entry does not decode to the character it replaces',
+    'SideProbe/before': 'BlockTagOK(probe): blank before an atomic inline-level box (inline-block / replaced element) dropped',
+    'SideProbe/after': 'BlockTagOK(probe): blank after an atomic inline-level box (inline-block / replaced element) dropped',
+    'RawAfterProbe': 'RawTagOK(probe): text after an element, inside a non-raw parent, copied as raw text',
     'UrlWsProbe': 'UrlAttrOK(probe): whitespace inside the value of a URL-valued attribute changed (another URL)',
     'RevProbe/text': 'EntityOK(probe): numeric reference to a reverse-mapped character decodes differently',
     'RevProbe/raw': 'EntityOK(probe): a character XML does not allow is written literally',
@@ -56,7 +59,7 @@ CLAUSES = {
 
 DIRECT = ('entity', 'reventity', 'colourname', 'colourhex', 'tagtrait', 'attrtrait', 'zerounit', 'jsmime',
           'svgcolourattr', 'hash')
-PROBES = ('tagprobe', 'rawprobe', 'attrprobe', 'unitprobe', 'colourprobe', 'svgattrprobe', 'entprobe', 'revprobe')
+PROBES = ('tagprobe', 'sideprobe', 'rawafter', 'rawprobe', 'attrprobe', 'unitprobe', 'colourprobe', 'svgattrprobe', 'entprobe', 'revprobe')
 
 
 def subject(e):
@@ -82,7 +85,7 @@ def subject(e):
         return 'svg.colorAttrMap[%s]' % e['attr']
     if k == 'hash':
         return '%s.Hash[%s]' % (e['pkg'], e['cname'])
-    if k in ('tagprobe', 'rawprobe'):
+    if k in ('tagprobe', 'rawprobe', 'sideprobe', 'rawafter'):
         return 'element:%s' % e['tag']
     if k == 'attrprobe':
         return 'attribute:%s' % e['attr']
